@@ -76,6 +76,12 @@ def run(ctx):
             rng.shuffle(g["nodes"])
             g["entrypoints"] = ["b1"]
             g["entry_inputs"] = {"inc": 1}
+        if m >= 2 and not g.get("entrypoints") and rng.random() < 0.3:
+            # a body node that is itself a nested graph (one node of the loop, one superstep per pass): the budget counts the
+            # supersteps of THIS run, whatever runs are nested in its nodes
+            cand = [f"b{j}" for j in range(2, m + 1) if not (ws and j == m)]
+            if cand:
+                g = gen.nest(rng, g, [rng.choice(cand)], "w0")
         iters = N if not ws else max(N, 1)
         need = (m + 1) * iters + (0 if ws else 1) + (1 if exit_node else 0)
         for fuel in sorted({0, max(0, need - 1), need, need + 1, 200}):      # 0 is a budget too: no superstep at all
